@@ -407,8 +407,68 @@ fn quick_lattice() -> Vec<u64> {
 }
 
 fn c08_scale(mask: u16, inputs: Option<&[u64]>, props_c19: bool, lc: &mut LocalCounts) {
+    c08_scale_route(mask, inputs, props_c19, 0, lc)
+}
+
+/// the scale `mask` reached through different edit histories (no conversion in between): 0 = forbid(complement) on a
+/// fresh quantizer; 1 = forbid everything with the lowest note of the scale last (it survives), then allow the rest;
+/// 2 = forbid the complement one note at a time in descending order, then toggle the highest note of the scale off
+/// and on; 3 = forbid everything with the highest note of the scale last, allow the whole scale, forbid the complement
+pub fn scale_by_route(mask: u16, route: u8) -> (Quantizer, Vec<String>) {
+    let notes: Vec<u8> = (0..12u8).filter(|n| mask >> n & 1 == 1).collect();
+    let comp: Vec<u8> = (0..12u8).filter(|n| mask >> n & 1 == 0).collect();
+    let mut q = Quantizer::new();
+    let mut script: Vec<String> = Vec::new();
+    let forbid = |q: &mut Quantizer, l: &[u8], script: &mut Vec<String>| {
+        if !l.is_empty() {
+            q.forbid(&l.iter().map(|n| Note::new(*n)).collect::<Vec<_>>());
+            script.push(format!("forbid:{}", list_str(l)));
+        }
+    };
+    let allow = |q: &mut Quantizer, l: &[u8], script: &mut Vec<String>| {
+        if !l.is_empty() {
+            q.allow(&l.iter().map(|n| Note::new(*n)).collect::<Vec<_>>());
+            script.push(format!("allow:{}", list_str(l)));
+        }
+    };
+    match route {
+        0 => forbid(&mut q, &comp, &mut script),
+        1 => {
+            let first = notes[0];
+            let mut all: Vec<u8> = (0..12u8).filter(|n| *n != first).collect();
+            all.push(first);
+            forbid(&mut q, &all, &mut script);
+            allow(&mut q, &notes[1..], &mut script);
+        }
+        2 => {
+            for n in comp.iter().rev() {
+                forbid(&mut q, &[*n], &mut script);
+            }
+            if notes.len() > 1 {
+                let top = *notes.last().unwrap();
+                forbid(&mut q, &[top], &mut script);
+                allow(&mut q, &[top], &mut script);
+            }
+        }
+        _ => {
+            let last = *notes.last().unwrap();
+            let mut all: Vec<u8> = (0..12u8).rev().filter(|n| *n != last).collect();
+            all.push(last);
+            forbid(&mut q, &all, &mut script);
+            allow(&mut q, &notes, &mut script);
+            forbid(&mut q, &comp, &mut script);
+        }
+    }
+    (q, script)
+}
+
+fn c08_scale_route(mask: u16, inputs: Option<&[u64]>, props_c19: bool, route: u8, lc: &mut LocalCounts) {
     let id = Ideal::new(mask);
-    let template = with_scale(mask);
+    let (template, route_script) = scale_by_route(mask, route);
+    if template.verif_allowed() != mask {
+        lc.violation(viol("C07", "scale-edit", format!("edit route {} should give scale {:012b}, got {:012b}", route, mask, template.verif_allowed()), route_script.clone()));
+        return;
+    }
     let mut prev_note: Option<u8> = None;
     let mut bad_here = 0u32;
     let mut fnd: Vec<Finding> = Vec::new();
@@ -427,7 +487,7 @@ fn c08_scale(mask: u16, inputs: Option<&[u64]>, props_c19: bool, lc: &mut LocalC
             if bad_here <= 2 {
                 let oct = c.note_num / 12;
                 let class = if oct == 0 && a < 12 { "not-nearest-octave0" } else { "not-nearest" };
-                let mut ops = scale_script(mask);
+                let mut ops = route_script.clone();
                 ops.push(format!("convert:{:?}", v));
                 lc.violation(viol("C08", class, format!("scale {:012b}, input {:?} V: reported note {}, nearest allowed note is {}", mask, v, c.note_num, if a == b { format!("{}", a) } else { format!("{} or {}", a, b) }), ops));
             } else {
@@ -480,6 +540,11 @@ pub fn c08(ctx: &Ctx) -> Report {
         for s in lo..hi {
             let mask = (s + 1) as u16;
             c08_scale(mask, if full { None } else { Some(lat) }, false, lc);
+            // the same scale reached through other edit histories (lattice inputs)
+            for route in 1..4u8 {
+                c08_scale_route(mask, Some(lat), false, route, lc);
+                lc.count("scales_reached_through_another_edit_history", 1);
+            }
             // outside the range: compare with the clamped value
             let id = Ideal::new(mask);
             for v in OUTSIDE {
@@ -501,10 +566,11 @@ pub fn c08(ctx: &Ctx) -> Report {
     rep.transitions += conv;
     rep.traces += conv;
     let per = if full { 10_000_001 } else { lattice.len() as u64 };
-    rep.nontrivial = conv - per;
+    rep.nontrivial = conv - per - 3 * lattice.len() as u64;
     rep.exhaustive = full;
     rep.subruns.push(json!({"engine": "E2-sweep", "scales": 4095, "inputs_per_scale": per, "full_microvolt_grid": full}));
     rep.require_nonzero("inputs_inside_a_tie_window");
+    rep.require_nonzero("scales_reached_through_another_edit_history");
     if rep.counters.get("decreases_outside_tie_windows").copied().unwrap_or(0) > 0 && rep.violations_total == 0 {
         rep.machinery("note decreased outside a tie window although every note matched the ideal (oracle inconsistency)".into());
     }
